@@ -12,6 +12,11 @@ import BtcdebProofs.Lemmas.Bech32
 import BtcdebProofs.Lemmas.ConvertBits
 import BtcdebProofs.Lemmas.Jacobi
 import BtcdebProofs.Lemmas.Sha256Length
+import BtcdebProofs.Lemmas.InlineText
+import BtcdebProofs.Lemmas.Bech32Decode
+import BtcdebProofs.Lemmas.Base58Buffer
+import BtcdebProofs.Properties.C07
+import BtcdebProofs.Refine.Step
 import Btcdeb.Model.Glue
 namespace Btcdeb.C14
 open Btcdeb
@@ -35,11 +40,23 @@ theorem base58_decode_sound (s b : Bytes) (maxRetLen : Nat) (h : Model.decodeBas
 theorem base58_spec_roundtrip (b : Bytes) : Spec.base58Decode (Spec.base58Encode b) = some b := Base58.spec_decode_encode b
 theorem base58_spec_sound (s b : Bytes) (h : Spec.base58Decode s = some b) : Spec.base58Encode b = s := Base58.spec_decode_sound s b h
 
-/-- `DecodeBase58Check(EncodeBase58Check(p)) = p` for payloads within the limit the transform passes (200);
-    `hash` is any function returning at least four bytes (double SHA-256 in the tools) -/
+/-- the scratch buffers of base58.cpp (modelled by the list of digits in use) are large enough, so `assert(carry == 0)` can
+    never fail: after any prefix `p` of the bytes being encoded the digits fit `b58` (`len * 138 / 100 + 1` places, because
+    256^100 < 58^138), and after any prefix of the base-58 digits being decoded the bytes fit `b256` (`len * 733 / 1000 + 1`
+    places, because 58^1000 < 256^733) -/
+theorem base58_encode_buffer_suffices (p q : Bytes) :
+    (p.foldl (fun ds ch => Model.mulAdd 58 256 ds ch.toNat) []).length ≤ (p ++ q).length * 138 / 100 + 1 :=
+  Base58.encode_loop_fits p q
+theorem base58_decode_buffer_suffices (p q : List Nat) (h : ∀ d ∈ p, d < 58) :
+    (p.foldl (fun a d => Model.mulAdd 256 58 a d) []).length ≤ (p ++ q).length * 733 / 1000 + 1 :=
+  Base58.decode_loop_fits p q h
+
+/-- `DecodeBase58Check(EncodeBase58Check(p)) = p` for payloads within the caller's limit (the transforms pass INT_MAX) whose
+    encoding length fits the C++ `int`; `hash` is any function returning at least four bytes (double SHA-256 in the tools) -/
 theorem base58check_roundtrip (hash : Bytes → Bytes) (hlen : ∀ m, 4 ≤ (hash m).length) (p : Bytes) (maxRet : Nat)
-    (h : p.length ≤ maxRet) : Model.decodeBase58Check hash (Model.encodeBase58Check hash p) maxRet = some p :=
-  Base58.check_decode_encode hash hlen p maxRet h
+    (h : p.length ≤ maxRet) (hint : p.length + 4 ≤ 2147483647) :
+    Model.decodeBase58Check hash (Model.encodeBase58Check hash p) maxRet = some p :=
+  Base58.check_decode_encode hash hlen p maxRet h hint
 
 /-- a string is accepted only if it is the Base58Check encoding of the payload returned -/
 theorem base58check_decode_sound (hash : Bytes → Bytes) (s p : Bytes) (maxRet : Nat)
@@ -75,6 +92,12 @@ theorem bech32_encode_spec (enc : Model.Bech32Encoding) (henc : enc ≠ .INVALID
     (hhrp : ∀ c ∈ hrp, ¬ (65 ≤ c.toNat ∧ c.toNat ≤ 90)) (hvals : ∀ v ∈ values, v.toNat < 32) :
     Model.bech32Encode enc hrp values = some (Spec.bech32Encode (Bech32.variantOf enc) hrp (values.map UInt8.toNat)) :=
   Bech32.encode_spec enc henc hrp values hhrp hvals
+
+/-- `bech32::Decode` is BIP173 / BIP350's `bech32_decode` on every string: same acceptance, variant, human-readable part
+    and 5-bit data -/
+theorem bech32_decode_spec (s : Bytes) :
+    (Model.bech32Decode s).map (fun r => (Bech32.variantOf r.1, r.2.1, r.2.2.map UInt8.toNat)) = Spec.bech32Decode s :=
+  Bech32.decode_spec s
 
 /-- `Decode(Encode(enc, hrp, values)) = (enc, hrp, values)` for a non-empty lower-case printable HRP, 5-bit values and
     at most 90 characters in total -/
@@ -261,17 +284,13 @@ theorem prefixCompactSize_decodes (v : Model.Value) (h : v.dataValue.length < 2 
   · simp only [dv_data, compactSize_spec]
     exact compactSize_decodes _ _ h
 
-/-- the value printed is the prefixed data only if the argument is not a string or an opcode (`data_value()` keeps the
-    type): for data and integer arguments the transform's result is data -/
-theorem prefixCompactSize_type_partial (v : Model.Value) (h : v.type = .T_DATA ∨ v.type = .T_INT) :
-    ∃ v', runT Model.doPrefixCompactSize v = .ok (v', {}) ∧ v'.type = .T_DATA := by
-  refine ⟨_, rfl, ?_⟩
-  cases v with
-  | mk type int64 opcode data str => rcases h with h | h <;> simp only at h <;> subst h <;> rfl
+/-- whatever the argument was written as (data, number, string, opcode), the result is a data value -/
+theorem prefixCompactSize_type (v : Model.Value) :
+    ∃ v', runT Model.doPrefixCompactSize v = .ok (v', {}) ∧ v'.type = .T_DATA := ⟨_, rfl, rfl⟩
 
-/-- the excluded region: a string argument stays a string, so the command shows it without prefix -/
+/-- the former reproducer `tf prefix-compact-size hi`: the result is the data 02 68 69 -/
 example : ∃ v', runT Model.doPrefixCompactSize { type := .T_STRING, str := [104, 105] } = .ok (v', {}) ∧
-    v'.printBytes = [34, 104, 105, 34] := ⟨_, rfl, by decide⟩
+    v'.type = .T_DATA ∧ v'.data = [2, 104, 105] := ⟨_, rfl, rfl, by decide⟩
 
 /-- `len` is the length of the byte string the argument denotes -/
 theorem len_transform (v : Model.Value) :
@@ -284,13 +303,13 @@ theorem len_transform (v : Model.Value) :
 theorem map_toNat_ofNat_lt (ds : List Nat) (h : ∀ d ∈ ds, d < 256) : (ds.map UInt8.ofNat).map UInt8.toNat = ds :=
   Base58.map_toNat_ofNat ds h
 
-/-- `base58chk-decode` undoes `base58chk-encode` for every argument whose byte string has at most 200 bytes -/
+/-- `base58chk-decode` undoes `base58chk-encode` for every argument (whose encoding length fits the C++ `int`) -/
 theorem base58chk_transform_roundtrip (cx : Model.VCtx) (hlen : ∀ m, 4 ≤ (cx.sha256 m).length) (v : Model.Value)
-    (h : v.dataValue.length ≤ 200) :
+    (h : v.dataValue.length + 4 ≤ 2147483647) :
     ∃ v1 v2, runT (Model.doBase58ChkEnc cx) v = .ok (v1, {}) ∧ runT (Model.doBase58ChkDec cx) v1 = .ok (v2, {}) ∧
       v2.type = .T_DATA ∧ v2.data = v.dataValue := by
   have hh : ∀ m, 4 ≤ (cx.hash m).length := fun m => hlen _
-  have hrt := base58check_roundtrip cx.hash hh v.dataValue 200 h
+  have hrt := base58check_roundtrip cx.hash hh v.dataValue Model.intMaxC (by unfold Model.intMaxC; omega) h
   have hnz : (Model.encodeBase58Check cx.hash v.dataValue).any (· == 0) = false := by
     have := hrt
     unfold Model.decodeBase58Check Model.decodeBase58 at this
@@ -347,7 +366,7 @@ theorem bech32_transform_roundtrip (enc : Model.Bech32Encoding) (henc : enc ≠ 
       rfl
 
 /-- with the real hash function there is no side condition -/
-theorem base58chk_transform_roundtrip_crypto (v : Model.Value) (h : v.dataValue.length ≤ 200) :
+theorem base58chk_transform_roundtrip_crypto (v : Model.Value) (h : v.dataValue.length + 4 ≤ 2147483647) :
     ∃ v1 v2, runT (Model.doBase58ChkEnc cryptoCtx) v = .ok (v1, {}) ∧ runT (Model.doBase58ChkDec cryptoCtx) v1 = .ok (v2, {}) ∧
       v2.type = .T_DATA ∧ v2.data = v.dataValue :=
   base58chk_transform_roundtrip cryptoCtx (fun m => by rw [show cryptoCtx.sha256 m = Crypto.sha256 m from rfl, Crypto.sha256_length]; decide) v h
@@ -370,7 +389,7 @@ theorem spk_addr_roundtrip (cx : Model.VCtx) (hlen : ∀ m, 4 ≤ (cx.sha256 m).
       rw [List.getD_eq_getElem?_getD, List.getElem?_append_right (by omega), hl]; rfl
     · simp only [spk, List.append_assoc, List.cons_append, List.nil_append, List.getD_cons_succ]
       rw [List.getD_eq_getElem?_getD, List.getElem?_append_right (by omega), hl]; rfl
-  have hrt := base58check_roundtrip cx.hash hh (0 :: h20) 200 (by simp [hl])
+  have hrt := base58check_roundtrip cx.hash hh (0 :: h20) Model.intMaxC (by simp [hl, Model.intMaxC]) (by simp [hl])
   have hnz : (Model.encodeBase58Check cx.hash (0 :: h20)).any (· == 0) = false := by
     have := hrt
     unfold Model.decodeBase58Check Model.decodeBase58 at this
@@ -386,7 +405,249 @@ theorem spk_addr_roundtrip (cx : Model.VCtx) (hlen : ∀ m, 4 ≤ (cx.sha256 m).
   · simp only [runT, Model.doSpkToAddr, hsl, g0, g1, g2, g3, g4, hmid]
     rfl
   · simp [runT, Model.doAddrToSpk, Model.doBase58ChkDec, hnz, hrt, bind, StateT.bind, Except.bind, pure, StateT.pure, Except.pure,
-      hpush, spk]
+      hpush, spk, hl]
+
+-- ---------------------------------------------------------------------------------------------
+-- the decoding transforms refuse instead of crashing, and accept nothing but encodings
+
+/-- `base58chk-decode` on any value ends normally -/
+theorem base58chkDec_total (cx : Model.VCtx) (v : Model.Value) : ∃ r, runT (Model.doBase58ChkDec cx) v = .ok r := by
+  unfold runT Model.doBase58ChkDec
+  split
+  · exact ⟨_, rfl⟩
+  · split
+    · exact ⟨_, rfl⟩
+    · cases Model.decodeBase58Check cx.hash v.str Model.intMaxC <;> exact ⟨_, rfl⟩
+
+/-- `addr-to-scriptpubkey` on any value (a corrupted address, a number, an opcode, ...) ends normally -/
+theorem addrToSpk_total (cx : Model.VCtx) (v : Model.Value) : ∃ r, runT (Model.doAddrToSpk cx) v = .ok r := by
+  obtain ⟨⟨v1, l1⟩, h1⟩ := base58chkDec_total cx v
+  unfold runT at h1 ⊢
+  unfold Model.doAddrToSpk
+  simp only [bind, StateT.bind, Except.bind, h1]
+  split <;> exact ⟨_, rfl⟩
+
+/-- a string is turned into a script only if it is (up to surrounding blanks) the Base58Check encoding of 0x00 followed by
+    twenty bytes, and the script is then the pay-to-public-key-hash script of those twenty bytes (nothing on stderr);
+    anything else — in particular every corruption of an address — gives empty data -/
+theorem addrToSpk_sound (cx : Model.VCtx) (v v' : Model.Value) (l : Model.Log) (hv : v.type = .T_STRING)
+    (hnul : v.str.any (· == 0) = false) (h : runT (Model.doAddrToSpk cx) v = .ok (v', l)) :
+    (l.err = [] ∧ ∃ h20 : Bytes, h20.length = 20 ∧ Model.encodeBase58Check cx.hash (0 :: h20) = Base58.core v.str ∧
+        v'.data = [0x76, 0xa9, 0x14] ++ h20 ++ [0x88, 0xac]) ∨ v'.data = [] := by
+  unfold runT Model.doAddrToSpk Model.doBase58ChkDec at h
+  simp only [hv, bne_self_eq_false, Bool.false_eq_true, ↓reduceIte] at h
+  by_cases hz : v.str.any (· == 0) = true
+  · rw [hnul] at hz; exact absurd hz (by simp)
+  · simp only [hz, Bool.false_eq_true, ↓reduceIte] at h
+    cases hd : Model.decodeBase58Check cx.hash v.str Model.intMaxC with
+    | none =>
+      right
+      simp only [hd, bind, StateT.bind, Except.bind, Model.sayErr, modify, modifyGet, MonadStateOf.modifyGet,
+        StateT.modifyGet, pure, StateT.pure, Except.pure] at h
+      split at h
+      · simp at h; obtain ⟨rfl, rfl⟩ := h; rfl
+      · rename_i hc; simp at hc
+    | some d =>
+      obtain ⟨hs, _⟩ := base58check_decode_sound cx.hash v.str d Model.intMaxC hd
+      simp only [hd, bind, StateT.bind, Except.bind, pure, StateT.pure, Except.pure] at h
+      split at h
+      · right
+        simp only [Model.sayErr, modify, modifyGet, MonadStateOf.modifyGet, StateT.modifyGet, bind, StateT.bind, Except.bind,
+          pure, StateT.pure, Except.pure] at h
+        simp at h
+        obtain ⟨rfl, rfl⟩ := h
+        rfl
+      · rename_i hc
+        left
+        simp at h
+        obtain ⟨rfl, rfl⟩ := h
+        simp only [bne_iff_ne, ne_eq, Bool.or_eq_true, decide_eq_true_eq, not_or, Decidable.not_not] at hc
+        obtain ⟨⟨_, hlen⟩, h0⟩ := hc
+        match d, hlen, h0 with
+        | x :: h20, hlen, h0 =>
+          simp only [List.getD_cons_zero] at h0
+          subst h0
+          refine ⟨rfl, h20, by simpa using hlen, hs, ?_⟩
+          have hl : h20.length = 20 := by simpa using hlen
+          simp [Model.pushData, hl, Op.OP_PUSHDATA1]
+
+/-- a computation in the transform monad that ends normally from every state of the output streams -/
+def Total {α} (m : Model.TM α) : Prop := ∀ l, ∃ r, m l = .ok r
+
+theorem total_pure {α} (a : α) : Total (pure a : Model.TM α) := fun l => ⟨(a, l), rfl⟩
+theorem total_sayErr (b : Bytes) : Total (Model.sayErr b) := fun _ => ⟨_, rfl⟩
+theorem total_sayOut (b : Bytes) : Total (Model.sayOut b) := fun _ => ⟨_, rfl⟩
+theorem total_bind {α β} (m : Model.TM α) (f : α → Model.TM β) (hm : Total m) (hf : ∀ a, Total (f a)) : Total (m >>= f) := by
+  intro l
+  obtain ⟨⟨a, l'⟩, h⟩ := hm l
+  obtain ⟨r, h'⟩ := hf a l'
+  exact ⟨r, by simp only [bind, StateT.bind, Except.bind, h, h']⟩
+theorem total_abort (v : Model.Value) (msg : String) : Total (Model.abortMsg v msg) :=
+  total_bind _ _ (total_sayErr _) (fun _ => total_pure _)
+theorem total_ite {α} (c : Prop) [Decidable c] (a b : Model.TM α) (ha : Total a) (hb : Total b) : Total (if c then a else b) := by
+  split <;> assumption
+theorem total_run {α} (m : Model.TM α) (h : Total m) : ∃ r, m {} = .ok r := h {}
+
+/-- `bech32-decode` on any value ends normally (an empty data part and invalid padding are refused with a diagnostic) -/
+theorem bech32Dec_total (v : Model.Value) : ∃ r, runT Model.doBech32Dec v = .ok r := by
+  apply total_run
+  unfold Model.doBech32Dec
+  apply total_ite _ _ _ (total_abort _ _)
+  cases Model.bech32Decode v.str with
+  | none => exact total_abort _ _
+  | some r =>
+    obtain ⟨enc, hrp, bech⟩ := r
+    cases bech with
+    | nil => exact total_abort _ _
+    | cons version rest =>
+      simp only []
+      apply total_bind _ _ (total_sayOut _)
+      intro _
+      apply total_ite
+      · apply total_ite
+        · exact total_bind _ _ (total_sayErr _) (fun _ => total_pure _)
+        · exact total_pure _
+      · exact total_bind _ _ (total_sayErr _) (fun _ => total_pure _)
+
+/-- `bech32-decode` yields data only from a string that `bech32::Decode` accepts (hence, by `bech32_decode_sound`, from an
+    encoding), and the data is then the specified regrouping of the symbols after the version symbol — or empty when that
+    regrouping is not defined (invalid padding) -/
+theorem bech32Dec_sound (v v' : Model.Value) (l : Model.Log) (hv : v.type = .T_STRING)
+    (h : runT Model.doBech32Dec v = .ok (v', l)) (hd : v'.type = .T_DATA) :
+    ∃ enc hrp version prog5, Model.bech32Decode v.str = some (enc, hrp, version :: prog5) ∧
+      (Spec.regroupNoPad 5 8 (prog5.map UInt8.toNat) = some (v'.data.map UInt8.toNat) ∨
+       (Spec.regroupNoPad 5 8 (prog5.map UInt8.toNat) = none ∧ v'.data = [])) := by
+  unfold runT Model.doBech32Dec at h
+  simp only [hv, bne_self_eq_false, Bool.false_eq_true, ↓reduceIte] at h
+  cases hdec : Model.bech32Decode v.str with
+  | none =>
+    simp only [hdec, Model.abortMsg, bind, StateT.bind, Except.bind, Model.sayErr, modify, modifyGet, MonadStateOf.modifyGet,
+      StateT.modifyGet, pure, StateT.pure, Except.pure] at h
+    simp at h; obtain ⟨rfl, _⟩ := h; rw [hv] at hd; cases hd
+  | some r =>
+    obtain ⟨enc, hrp, bech⟩ := r
+    cases bech with
+    | nil =>
+      simp only [hdec, Model.abortMsg, bind, StateT.bind, Except.bind, Model.sayErr, modify, modifyGet, MonadStateOf.modifyGet,
+        StateT.modifyGet, pure, StateT.pure, Except.pure] at h
+      simp at h; obtain ⟨rfl, _⟩ := h; rw [hv] at hd; cases hd
+    | cons version rest =>
+      refine ⟨enc, hrp, version, rest, rfl, ?_⟩
+      have hlt : ∀ y ∈ rest.map UInt8.toNat, y < 32 := by
+        intro y hy
+        obtain ⟨b, hb, rfl⟩ := List.mem_map.mp hy
+        exact Bech32.decode_values_lt v.str hrp (version :: rest) enc hdec b (List.mem_cons_of_mem _ hb)
+      obtain ⟨s1, s2⟩ := convertBits_5_8_spec _ hlt
+      obtain ⟨a1, _, _, _⟩ := convertBits_5_8 _ hlt
+      simp only [hdec] at h
+      cases hr : (Model.convertBits 5 8 false (rest.map UInt8.toNat)).2 with
+      | false =>
+        right
+        rw [hr] at s1
+        simp only [bind, StateT.bind, Except.bind, Model.sayOut, Model.sayErr, modify, modifyGet, MonadStateOf.modifyGet,
+          StateT.modifyGet, hr, Bool.false_eq_true, ↓reduceIte, pure, StateT.pure, Except.pure] at h
+        simp at h
+        obtain ⟨rfl, _⟩ := h
+        refine ⟨?_, rfl⟩
+        cases hq : Spec.regroupNoPad 5 8 (rest.map UInt8.toNat) with
+        | none => rfl
+        | some o => simp [hq] at s1
+      | true =>
+        left
+        rw [hr] at s1
+        cases hq : Spec.regroupNoPad 5 8 (rest.map UInt8.toNat) with
+        | none => simp [hq] at s1
+        | some o =>
+          have ho := s2 o hq
+          have hdata : v'.data = (Model.convertBits 5 8 false (rest.map UInt8.toNat)).1.map UInt8.ofNat := by
+            by_cases hw : (version == 0 && (List.map UInt8.ofNat (Model.convertBits 5 8 false (rest.map UInt8.toNat)).1).length != 20 &&
+                (List.map UInt8.ofNat (Model.convertBits 5 8 false (rest.map UInt8.toNat)).1).length != 32) = true
+            · simp only [bind, StateT.bind, Except.bind, Model.sayOut, Model.sayErr, modify, modifyGet, MonadStateOf.modifyGet,
+                StateT.modifyGet, hr, ↓reduceIte, hw, pure, StateT.pure, Except.pure] at h
+              simp at h; obtain ⟨rfl, _⟩ := h; rfl
+            · simp only [bind, StateT.bind, Except.bind, Model.sayOut, Model.sayErr, modify, modifyGet, MonadStateOf.modifyGet,
+                StateT.modifyGet, hr, ↓reduceIte, hw, pure, StateT.pure, Except.pure, Bool.false_eq_true] at h
+              simp at h; obtain ⟨rfl, _⟩ := h; rfl
+          rw [hdata, map_toNat_ofNat_lt _ a1, ho]
+
+/-- `verify-sig` / `verify-sig-compact` on any value end normally (a 64-byte sighash and a Schnorr signature that is not 64
+    bytes are refused with a diagnostic instead of hitting an assertion) -/
+theorem verifySig_total (compact : Bool) (v : Model.Value) : ∃ r, runT (Model.verifySig compact) v = .ok r := by
+  apply total_run
+  unfold Model.verifySig
+  apply total_ite _ _ _ (total_abort _ _)
+  cases Model.extractValues v.data with
+  | none => exact total_abort _ _
+  | some ops =>
+    rcases ops with _ | ⟨sighash, _ | ⟨pk, _ | ⟨sig, _ | ⟨x, t⟩⟩⟩⟩
+    · exact total_abort _ _
+    · exact total_abort _ _
+    · exact total_abort _ _
+    · simp only []
+      apply total_ite _ _ _ (total_abort _ _)
+      apply total_ite _ _ _ (total_abort _ _)
+      apply total_ite
+      · cases Crypto.parseXOnly pk with
+        | none => exact total_abort _ _
+        | some _ => exact total_bind _ _ (total_sayErr _) (fun _ => total_pure _)
+      · apply total_ite _ _ _ (total_abort _ _)
+        apply total_ite _ _ _ (total_pure _)
+        cases Crypto.parsePubKey pk with
+        | none => exact total_pure _
+        | some q =>
+          simp only []
+          apply total_ite
+          · exact total_bind _ _ (total_sayErr _) (fun _ => total_pure _)
+          · apply total_ite
+            · exact total_bind _ _ (total_sayErr _) (fun _ => total_pure _)
+            · exact total_pure _
+    · exact total_abort _ _
+
+-- ---------------------------------------------------------------------------------------------
+-- operands of the transforms that take several
+
+/-- whatever byte strings the arguments denote (the empty string, the numbers −1..16 that assemble to one-byte opcodes,
+    anything up to 2^32 bytes), `extract_values` reads back from the assembled script exactly those byte strings -/
+theorem extractValues_assemble (ds : List Bytes) (h : ∀ d ∈ ds, d.length < 2 ^ 32) :
+    Model.extractValues (ds.map Spec.minimalPushOf).flatten = some ds := by
+  induction ds with
+  | nil => rw [Model.extractValues]; rfl
+  | cons d ds ih =>
+    obtain ⟨i, h1, h2, _⟩ := Proofs.C07.minimal_push_decodes d (ds.map Spec.minimalPushOf).flatten (h d (by simp))
+    have hg := Refine.getOp_decodeOne (Spec.minimalPushOf d ++ (ds.map Spec.minimalPushOf).flatten)
+    rw [h1] at hg
+    cases hq : Model.getOp (Spec.minimalPushOf d ++ (ds.map Spec.minimalPushOf).flatten) with
+    | none => simp [hq] at hg
+    | some g =>
+      simp only [hq, Option.map_some, Option.some.injEq, Prod.mk.injEq] at hg
+      obtain ⟨hi, hr⟩ := hg
+      subst hi
+      have hone : Model.extractOne g.opcode g.data = some d := by
+        rw [← h2]
+        unfold Model.extractOne Proofs.C07.pushedBy
+        simp only [Bool.and_eq_true, decide_eq_true_eq, beq_iff_eq]
+        by_cases c1 : 0x51 ≤ g.opcode ∧ g.opcode ≤ 0x60
+        · rw [if_pos c1, if_neg (by omega), if_neg (by omega), if_pos c1]
+        · rw [if_neg c1]
+          by_cases c2 : g.opcode = 0x4f
+          · rw [if_pos c2, if_neg (by omega), if_pos c2]
+          · rw [if_neg c2]
+            by_cases c3 : g.opcode ≤ 0x4e
+            · rw [if_neg (by omega), if_pos c3]
+            · rw [if_pos (by omega), if_neg c3, if_neg c2, if_neg c1]
+      simp only [List.map_cons, List.flatten_cons]
+      rw [Model.extractValues]
+      split
+      · rename_i hn; rw [hq] at hn; cases hn
+      · rename_i g' hg'
+        rw [hq] at hg'
+        cases hg'
+        simp only [hone, hr, ih (fun x hx => h x (by simp [hx]))]
+
+/-- the former reproducer `tf add 1 2`: the script OP_1 OP_2 now reads back as the operands [1] and [2] -/
+example : Model.extractValues [0x51, 0x52] = some [[1], [2]] := by
+  have := extractValues_assemble [[1], [2]] (by intro d hd; simp at hd; rcases hd with rfl | rfl <;> decide)
+  simpa [Spec.minimalPushOf] using this
 
 -- ---------------------------------------------------------------------------------------------
 -- modular addition / subtraction
@@ -395,13 +656,10 @@ theorem spk_addr_roundtrip (cx : Model.VCtx) (hlen : ∀ m, 4 ≤ (cx.sha256 m).
 theorem add_no_modulus (a b : Nat) : Model.arithAdd a b 0 = leFixed 32 ((a + b) % 2 ^ 256) := by
   simp [Model.arithAdd]
 
-/-- `add` with a modulus: (a + b) mod g, in the region where the single conditional subtraction of the C++ suffices -/
-theorem add_modulus_partial (a b g : Nat) (ha : a < 2 ^ 256) (hb : b < 2 ^ 256) (hg0 : g ≠ 0) (hg : g < 2 ^ 256)
-    (hred : a + b < 2 * g) : Model.arithAdd a b g = leFixed 32 ((a + b) % g) := by
-  unfold Model.arithAdd
-  have hg0' : (g != 0) = true := by simpa using hg0
-  simp only [hg0', Bool.true_and]
-  congr 1
+/-- the sum and the single conditional subtraction of `add()` on operands already reduced modulo g -/
+theorem add_core (a b g : Nat) (hg : g < 2 ^ 256) (ha : a < g) (hb : b < g) :
+    (if (decide ((a + b) % 2 ^ 256 ≥ g) || decide ((a + b) % 2 ^ 256 < a)) = true
+      then ((a + b) % 2 ^ 256 + 2 ^ 256 - g) % 2 ^ 256 else (a + b) % 2 ^ 256) = (a + b) % g := by
   by_cases hov : a + b < 2 ^ 256
   · rw [Nat.mod_eq_of_lt hov]
     by_cases hc : a + b ≥ g
@@ -409,9 +667,7 @@ theorem add_modulus_partial (a b g : Nat) (ha : a < 2 ^ 256) (hb : b < 2 ^ 256) 
       rw [if_pos this]
       have e : (a + b + 2 ^ 256 - g) = (a + b - g) + 2 ^ 256 := by omega
       rw [e, Nat.add_mod_right, Nat.mod_eq_of_lt (by omega)]
-      have : (a + b) % g = a + b - g := by
-        rw [Nat.mod_eq_sub_mod hc, Nat.mod_eq_of_lt (by omega)]
-      rw [this]
+      rw [Nat.mod_eq_sub_mod hc, Nat.mod_eq_of_lt (by omega)]
     · have : (decide (a + b ≥ g) || decide (a + b < a)) = false := by
         simp only [Bool.or_eq_false_iff, decide_eq_false_iff_not]; omega
       rw [if_neg (by simp [this])]
@@ -425,17 +681,25 @@ theorem add_modulus_partial (a b g : Nat) (ha : a < 2 ^ 256) (hb : b < 2 ^ 256) 
     rw [if_pos this]
     have e : a + b - 2 ^ 256 + 2 ^ 256 - g = a + b - g := by omega
     rw [e, Nat.mod_eq_of_lt (by omega)]
-    have : (a + b) % g = a + b - g := by
-      rw [Nat.mod_eq_sub_mod (by omega), Nat.mod_eq_of_lt (by omega)]
-    rw [this]
+    rw [Nat.mod_eq_sub_mod (by omega), Nat.mod_eq_of_lt (by omega)]
 
-/-- the excluded region is real: operands that are not reduced modulo g -/
-example : Model.arithAdd 100 17 23 = leFixed 32 94 ∧ (100 + 17) % 23 = 2 := by decide
+/-- `add` with a modulus is (a + b) mod g for ALL operands (the C++ reduces them modulo g first) -/
+theorem add_modulus (a b g : Nat) (hg0 : g ≠ 0) (hg : g < 2 ^ 256) :
+    Model.arithAdd a b g = leFixed 32 ((a + b) % g) := by
+  unfold Model.arithAdd
+  have hg0' : (g != 0) = true := by simpa using hg0
+  simp only [hg0', Bool.true_and, ↓reduceIte]
+  congr 1
+  have hpos : 0 < g := Nat.pos_of_ne_zero hg0
+  rw [add_core (a % g) (b % g) g hg (Nat.mod_lt _ hpos) (Nat.mod_lt _ hpos), ← Nat.add_mod]
+
+/-- the former reproducer `tf add 0x64 0x11 0x17`: 100 + 17 mod 23 = 2 -/
+example : Model.arithAdd 100 17 23 = leFixed 32 2 ∧ (100 + 17) % 23 = 2 := by decide
 
 /-- `sub` without modulus: subtraction modulo 2^256 -/
 theorem sub_no_modulus (a b : Nat) (ha : a < 2 ^ 256) (hb : b < 2 ^ 256) :
-    Model.arithAdd a ((2 ^ 256 - b) % 2 ^ 256) 0 = leFixed 32 (Spec.modSub a b 0) := by
-  simp only [Model.arithAdd, bne_self_eq_false, Bool.false_and, Bool.false_eq_true, ↓reduceIte, Spec.modSub]
+    Model.arithAdd a (Model.arithNeg b 0) 0 = leFixed 32 (Spec.modSub a b 0) := by
+  simp only [Model.arithAdd, Model.arithNeg, bne_self_eq_false, Bool.false_and, Bool.false_eq_true, ↓reduceIte, Spec.modSub]
   congr 1
   by_cases hb0 : b = 0
   · subst hb0
@@ -461,18 +725,31 @@ theorem sub_no_modulus (a b : Nat) (ha : a < 2 ^ 256) (hb : b < 2 ^ 256) :
         apply Int.emod_eq_of_lt <;> omega
       rw [this, Int.toNat_natCast]
 
-/-- `sub` with a modulus is (a − b) mod g only for b = 0 (and a < 2g): the C++ negates b modulo 2^256, not modulo g -/
-theorem sub_modulus_partial (a g : Nat) (ha : a < 2 ^ 256) (hg0 : g ≠ 0) (hg : g < 2 ^ 256) (hred : a < 2 * g) :
-    Model.arithAdd a ((2 ^ 256 - 0) % 2 ^ 256) g = leFixed 32 (Spec.modSub a 0 g) := by
-  have e : (2 ^ 256 - 0) % 2 ^ 256 = 0 := by simp
-  rw [e, add_modulus_partial a 0 g ha (by decide) hg0 hg (by omega)]
-  simp only [Spec.modSub, hg0, ↓reduceIte, Nat.add_zero]
-  have : ((a : Int) - ((0 : Nat) : Int)) % (g : Int) = ((a % g : Nat) : Int) := by simp
+/-- `sub` with a modulus is (a − b) mod g on the integers for ALL operands: the subtrahend handed to `add` is the
+    additive inverse of b modulo g -/
+theorem sub_modulus (a b g : Nat) (hg0 : g ≠ 0) (hg : g < 2 ^ 256) :
+    Model.arithAdd a (Model.arithNeg b g) g = leFixed 32 (Spec.modSub a b g) := by
+  rw [add_modulus a _ g hg0 hg]
+  have hg0' : (g != 0) = true := by simpa using hg0
+  simp only [Model.arithNeg, hg0', ↓reduceIte, Spec.modSub, hg0]
+  congr 1
+  have hpos : 0 < g := Nat.pos_of_ne_zero hg0
+  have hr : b % g < g := Nat.mod_lt _ hpos
+  have hb : (b : Int) = (g : Int) * ((b / g : Nat) : Int) + ((b % g : Nat) : Int) := by
+    have := Nat.div_add_mod b g
+    exact_mod_cast this.symm
+  have e : ((a : Int) - (b : Int)) = ((a + (g - b % g) : Nat) : Int) + (g : Int) * (-((b / g : Nat) : Int) - 1) := by
+    rw [Int.mul_sub, Int.mul_neg, Int.mul_one, hb]
+    generalize (g : Int) * ((b / g : Nat) : Int) = t
+    omega
+  rw [e, Int.add_mul_emod_self_left]
+  have : ((a + (g - b % g) : Nat) : Int) % (g : Int) = (((a + (g - b % g)) % g : Nat) : Int) := by simp
   rw [this, Int.toNat_natCast]
 
-/-- the defect: `tf sub 0x20 0x11 0x30` gives 2^256 − 0x21 where (0x20 − 0x11) mod 0x30 = 0x0f -/
-example : Model.arithAdd 0x20 ((2 ^ 256 - 0x11) % 2 ^ 256) 0x30 = leFixed 32 (2 ^ 256 - 0x21) ∧ Spec.modSub 0x20 0x11 0x30 = 0x0f := by
-  decide
+/-- the former reproducers: `tf sub 0x20 0x11 0x30` = 0x0f, `tf sub 0x11 0x11 0x30` = 0, `tf sub 0x11 0x20 0x30` = 0x21 -/
+example : Model.arithAdd 0x20 (Model.arithNeg 0x11 0x30) 0x30 = leFixed 32 0x0f ∧
+    Model.arithAdd 0x11 (Model.arithNeg 0x11 0x30) 0x30 = leFixed 32 0 ∧
+    Model.arithAdd 0x11 (Model.arithNeg 0x20 0x30) 0x30 = leFixed 32 0x21 := by decide
 
 -- ---------------------------------------------------------------------------------------------
 -- Jacobi symbol
@@ -511,6 +788,68 @@ theorem inline_eq_command (cx : Model.VCtx) (v : Model.Value) :
       | exact absurd rfl hhex
       | exact ⟨_, by simp [Model.Value.doExecName], rfl⟩
       | (refine ⟨_, by simp [Model.Value.doExecName]; rfl, ?_⟩; simp [Model.Value.println, Model.intValueM, Model.Value.printBytes])
+
+/-- text level: the `Value` constructor on the text `name(arg)` parses `arg`, assigns the result into the value under
+    construction (`operator=` copies the type and the active field only) and runs `do_exec(name)` on it -/
+theorem inline_text (cx : Model.VCtx) (mk : Bytes → Nat → Model.TM Model.Value) (nm arg : Bytes) (hlen : nm.length ≤ 29)
+    (hnm : ∀ c ∈ nm, c.toNat ≠ 40 ∧ c.toNat ≠ 0) (hpos : nm.length + arg.length > 1) :
+    Model.valueBodyF cx mk (nm ++ [40] ++ arg ++ [41]) (nm.length + arg.length + 2) = (do
+      let inner ← mk arg arg.length
+      let this := ({ type := .T_STRING, str := nm ++ [40] ++ arg ++ [41] } : Model.Value).assign inner
+      match this.doExecF cx nm with
+      | some r => r
+      | none => do
+        Model.sayErr (Model.asc "unknown function " ++ Model.cstrOf nm ++ Model.asc ": expression left as is\n")
+        pure (Model.classifyPlainF this (nm ++ [40] ++ arg ++ [41]) (nm.length + arg.length + 2))) :=
+  InlineText.inline_text cx mk nm arg hlen hnm hpos
+
+/-- text level, command side: evaluating the text `name(arg)` and printing the value writes what the wrapper `_e_name` of
+    the table row writes for the assigned inner value.  (`fn_tf` runs the wrapper on the inner value itself; the two differ
+    only in the fields `operator=` does not copy — see the report: a string argument that starts with hex digits keeps
+    `TryHex`'s partial bytes in `data`, which scriptpubkey-to-addr / pubkey-to-xpubkey / the several-operand transforms read.) -/
+theorem inline_text_eq_wrapper (cx : Model.VCtx) (mk : Bytes → Nat → Model.TM Model.Value) (nm arg : Bytes) (hlen : nm.length ≤ 29)
+    (hnm : ∀ c ∈ nm, c.toNat ≠ 40 ∧ c.toNat ≠ 0) (hpos : nm.length + arg.length > 1) :
+    ∀ e ∈ Model.tfTable, e.name ≠ "hex" → e.exec = some (Model.strOfBytes nm) →
+      (do let v ← Model.valueBodyF cx mk (nm ++ [40] ++ arg ++ [41]) (nm.length + arg.length + 2); v.println : Model.TM Unit) =
+      (do let inner ← mk arg arg.length
+          e.run cx (({ type := .T_STRING, str := nm ++ [40] ++ arg ++ [41] } : Model.Value).assign inner)) := by
+  intro e he hhex hex
+  rw [inline_text cx mk nm arg hlen hnm hpos]
+  simp only [bind_assoc]
+  congr 1
+  funext inner
+  obtain ⟨f, h1, h2⟩ := inline_eq_command cx (({ type := .T_STRING, str := nm ++ [40] ++ arg ++ [41] } : Model.Value).assign inner)
+    e he hhex _ hex
+  simp only [Model.Value.doExecF, h1]
+  exact h2
+
+section
+open Model
+/-- the fields a value shows: type, the three scalar fields and the byte string it denotes -/
+def shown (v : Value) : VType × Int × Bytes × Bytes := (v.type, v.int64, v.str, v.dataValue)
+
+/-- the inline functions the assembler model of C07 (`Value.doExec` in Model/Value.lean) knows are the same functions as in the
+    full dispatcher: same type, integer, string and denoted byte string of the result, same failure -/
+theorem doExec_agrees (cx : VCtx) (v : Value) (fn : Bytes) (name : String) (hfn : strOfBytes fn = name)
+    (hk : name ∈ knownInline) :
+    ∃ r f, v.doExec cx fn = some r ∧ v.doExecName cx name = some f ∧
+      (match r, f {} with
+       | .ok a, .ok (b, _) => shown a = shown b
+       | .error e, .error e' => e = e'
+       | _, _ => False) := by
+  simp only [knownInline, List.mem_cons, List.not_mem_nil, or_false] at hk
+  rcases hk with rfl | rfl | rfl | rfl | rfl | rfl | rfl | rfl | rfl
+  all_goals simp [Value.doExec, hfn, Value.doExecName]
+  all_goals
+    cases v with
+    | mk type int64 opcode data str =>
+      cases type <;> first
+        | rfl
+        | (simp [shown, Value.dataValue, doPrefixCompactSize, Value.dv, intValueM, Value.intValue, liftVM, bind, StateT.bind,
+            Except.bind, pure, StateT.pure, Except.pure, sayErr, modify, modifyGet, MonadStateOf.modifyGet, StateT.modifyGet,
+            Functor.map, StateT.map, Except.map]
+           try (cases dataIntValue data <;> simp))
+end
 
 /-- the rows without inline form: `do_exec` does not know the names the table advertises for them -/
 theorem inline_missing (cx : Model.VCtx) (v : Model.Value) :
